@@ -459,7 +459,9 @@ def main(argv):
             relevant_bad.append((r, ids, cases))
         if relevant_bad:
             r, ids, cases = relevant_bad[0]
-            have_input = any(v["kind"] == "monitor" for v in violations)
+            # a monitor hit is a direct counterexample to the property; failing that, the concrete case on
+            # which the implementation departs from the verified model is the replayable failing input
+            have_input = any(v["kind"] == "monitor" for v in violations) or any(c for c in cases.values())
             violations.append({"kind": "correspondence", "key": "correspondence:%s" % r["family"],
                                "desc": "model and implementation disagree on %d shard(s); first: %s case ids %s; coqc said: %s" % (
                                    len(relevant_bad), r["shard"], ids[:10], r["out"][-700:]),
@@ -515,7 +517,7 @@ def main(argv):
         if violations:
             # concrete failing inputs first
             violations.sort(key=lambda v: (0 if v["kind"] == "monitor" else 1))
-            have_input = any(v.get("found_input") and v["kind"] == "monitor" for v in violations)
+            have_input = any(v.get("found_input") for v in violations)
             rp = os.path.join(VERIF, "replays", "%s_%s_%d.json" % (pid, args.tier, args.seed))
             with open(rp, "w") as f:
                 json.dump({"property": pid, "seed": args.seed, "tier": args.tier, "tree": th, "violations": violations[:20],
